@@ -142,6 +142,7 @@ fn manage_worker(plan: WorkerPlan, shared: Arc<Mutex<Collected>>) {
         let stdout = child.stdout.take().unwrap();
         let reader = BufReader::new(stdout);
         let mut got_stat = false;
+        let mut last_partial: Option<Value> = None;
         for line in reader.lines() {
             let line = match line {
                 Ok(l) => l,
@@ -163,6 +164,10 @@ fn manage_worker(plan: WorkerPlan, shared: Arc<Mutex<Collected>>) {
                 if let Ok(v) = serde_json::from_str::<Value>(rest) {
                     shared.lock().unwrap().stats.push(v);
                     got_stat = true;
+                }
+            } else if let Some(rest) = line.strip_prefix("PSTAT ") {
+                if let Ok(v) = serde_json::from_str::<Value>(rest) {
+                    last_partial = Some(v);
                 }
             } else if let Some(rest) = line.strip_prefix("HARNESS ") {
                 shared.lock().unwrap().harness.push(rest.to_string());
@@ -221,7 +226,11 @@ fn manage_worker(plan: WorkerPlan, shared: Arc<Mutex<Collected>>) {
             }
             break;
         }
-        // abnormal termination: attribute it with the journal
+        // abnormal termination: keep what the dead worker had reported so far, then attribute the
+        // death with the journal
+        if let Some(p) = last_partial.take() {
+            shared.lock().unwrap().stats.push(p);
+        }
         let snap = read_journal(&journal);
         let sig = signal_of(&status);
         match snap {
